@@ -54,7 +54,7 @@ CHECKS['C06'] = dict(text='Bounded symbolic execution of the real condition mach
                   'for every shape z3 proves that the re-parsed rendered predicate is equivalent under SQL three-valued logic to the AND of the supplied conditions for all TRUE/FALSE/NULL assignments of the atoms, and that no predicate is rendered when no condition was given.',
              note=TRUST_M + 'Oracle: Kleene evaluation (two solver Booleans per atom) of the specification and of the predicate read back by props/sqlparse.py. The #[doc(hidden)] and_or_where chain API is outside the property.',
              technique='symbolic execution of rustc MIR (shape forking) + one z3 validity query per shape over three-valued atom assignments', ref='6/C06', engine=ENGINE_M)
-CHECKS['C10'] = dict(text='Bounded symbolic execution of the real InsertStatement builder (columns, values, values_panic, select_from, or_default_values*) and of prepare_insert_statement: the engine explores every call history (<= 3 calls quick, <= 4 thorough) with column counts and row lengths 0..2 (0..3) '
+CHECKS['C10'] = dict(text='Bounded symbolic execution of the real InsertStatement builder (columns, values, values_panic, values_from_panic, select_from, or_default_values*) and of prepare_insert_statement: the engine explores every call history (<= 3 calls quick, <= 4 thorough) with column counts and row lengths 0..2 (0..3) '
                   'and symbolic cell values; on every path the outcomes of values()/select_from() (Ok iff the lengths agree, else ColValNumMismatch with both counts and an unchanged statement, compared with the crate own PartialEq) and the rendered INSERT on the three backends '
                   '(rectangular VALUES list matching the column list, rows and cells in call order by term identity, default-values form only without columns and source) are checked against a reference model.',
              note=TRUST_M + 'Oracle: spec() and parse_insert() in props/c10.py. Known finding: columns() re-declared after a source was accepted.',
